@@ -1,4 +1,6 @@
 import VelaVerif.Spec.Mem
+import VelaVerif.Lemmas.Footprint
+import VelaVerif.Lemmas.IntervalMap
 /-!
 # C02 — every NPU memory access stays inside the region the output model declares
 
@@ -6,7 +8,7 @@ The run-time verdict is `Mem.checkBounds` applied to each emitted stream. This f
 range-based checker is sound for the byte-level statement.
 -/
 namespace VelaVerif.Props.C02
-open VelaVerif.Footprint VelaVerif.Mem
+open VelaVerif.Footprint VelaVerif.Mem VelaVerif.Decode
 
 /-- Every piece lies inside the hull `Footprint.hull` computes. -/
 theorem hull_covers (ps : List Piece) (lo hi : Nat) (h : hull ps = some (lo, hi)) :
@@ -66,5 +68,140 @@ theorem checkAccessBounds_sound (e : Env) (idx : Nat) (a : Access) (h : checkAcc
 
 example : checkAccessBounds { extents := [(1, 100)], shramBytes := 16384, lutBase := 14336 } 0
     ⟨1, true, "OFM", [⟨0, 64, 0⟩, ⟨64, 32, 0⟩]⟩ = [] := by decide
+
+/-! ## Part B: the footprint `fmPieces` is exactly the set of bytes of the addressed elements -/
+
+/-- 7. `coalesce` changes neither the set of covered bytes nor the `delta` any byte is covered with -/
+theorem coalesce_preserves_bytes (ps : List Piece) (b : Nat) (δ : Int) :
+    (∃ p ∈ coalesce ps, (p.addr ≤ b ∧ b < p.addr + p.len) ∧ p.delta = δ) ↔
+      (∃ p ∈ ps, (p.addr ≤ b ∧ b < p.addr + p.len) ∧ p.delta = δ) :=
+  Footprint.coalesce_preserves_bytes ps b δ
+
+example : coalesce [⟨0, 32, 0⟩, ⟨32, 32, 0⟩, ⟨64, 8, 5⟩, ⟨80, 8, 5⟩] = [⟨0, 64, 0⟩, ⟨64, 8, 5⟩, ⟨80, 8, 5⟩] := by decide
+
+/-- 8. coverage: every byte `fmAddr fm y x c + k` (`k < elemBytes`) of every addressed element
+    (`y < height`, `x < width`, `c < depth`) lies in a piece of `fmPieces fm y0 x0 c0`, and that piece's
+    `delta` is the element's canonical offset minus its address.
+    Side conditions the proof forces: none for NHWC (in particular none on `depth·elemBytes` vs `strideX`:
+    when they are equal the pieces are whole x-runs, otherwise one piece per pixel; and none on the tile
+    split — the two runs of a row are cut at `width0`, which is what makes each run lie in one tile);
+    for NHCWB16 the *tag* part needs the channel origin to be brick aligned, `c0 % 16 = 0`
+    (the address part holds without it). `elemBytes > 0` is implied by `k < elemBytes`. -/
+theorem fmPieces_covers (fm : FM) (y0 x0 c0 y x c k : Nat)
+    (hy : y < fm.height) (hx : x < fm.width) (hc : c < fm.depth) (hk : k < fm.elemBytes) :
+    ∃ p ∈ fmPieces fm y0 x0 c0, (p.addr ≤ fmAddr fm y x c + k ∧ fmAddr fm y x c + k < p.addr + p.len) ∧
+      ((fm.nhcwb16 = true → c0 % 16 = 0) →
+        p.delta = (canon fm (y + y0) (x + x0) (c + c0) : Int) - (fmAddr fm y x c : Int)) :=
+  Footprint.fmPieces_covers fm y0 x0 c0 y x c k hy hx hc hk
+
+/-- 9. exactness: conversely every byte of every piece of `fmPieces` is a byte of an addressed element, and
+    the piece carries that element's tag (both layouts; NHCWB16 tag part again under `c0 % 16 = 0`).
+    So the footprint is not an over-approximation. -/
+theorem fmPieces_exact (fm : FM) (y0 x0 c0 : Nat) (p : Piece) (hp : p ∈ fmPieces fm y0 x0 c0)
+    (B : Nat) (hB : p.addr ≤ B ∧ B < p.addr + p.len) :
+    ∃ y x c k, y < fm.height ∧ x < fm.width ∧ c < fm.depth ∧ k < fm.elemBytes ∧ B = fmAddr fm y x c + k ∧
+      ((fm.nhcwb16 = true → c0 % 16 = 0) →
+        p.delta = (canon fm (y + y0) (x + x0) (c + c0) : Int) - (fmAddr fm y x c : Int)) :=
+  Footprint.fmPieces_exact fm y0 x0 c0 p hp B hB
+
+/-- 8 + 9: the bytes touched by `fmPieces` are exactly the bytes of the addressed elements -/
+theorem fmPieces_bytes_iff (fm : FM) (y0 x0 c0 B : Nat) :
+    (∃ p ∈ fmPieces fm y0 x0 c0, p.addr ≤ B ∧ B < p.addr + p.len) ↔
+      ∃ y x c k, y < fm.height ∧ x < fm.width ∧ c < fm.depth ∧ k < fm.elemBytes ∧ B = fmAddr fm y x c + k :=
+  Footprint.fmPieces_bytes_iff fm y0 x0 c0 B
+
+/-- NHWC, 2 tiles side by side (width0 = 2 of width 4), 3 of 8 channels used: one piece per pixel -/
+def exNhwc : FM :=
+  { region := 1, base := [0, 1000, 0, 0], height0 := 4, height1 := 4, width0 := 2, strideX := 8, strideY := 32,
+    strideC := 0, height := 2, width := 4, depth := 3, elemBytes := 1, signed := true, nhcwb16 := false, zeroPoint := 0 }
+/-- NHCWB16, 20 channels (one full brick + a 4-channel remainder), int16 -/
+def exB16 : FM :=
+  { region := 1, base := [0, 0, 0, 0], height0 := 8, height1 := 8, width0 := 8, strideX := 0, strideY := 256,
+    strideC := 128, height := 2, width := 4, depth := 20, elemBytes := 2, signed := true, nhcwb16 := true, zeroPoint := 0 }
+
+example : fmPieces exNhwc 5 0 0 =
+    [⟨0, 3, 160⟩, ⟨8, 3, 160⟩, ⟨1000, 3, -824⟩, ⟨1008, 3, -824⟩, ⟨32, 3, 160⟩, ⟨40, 3, 160⟩, ⟨1032, 3, -824⟩, ⟨1040, 3, -824⟩] := by
+  decide
+example : fmPieces exB16 0 0 16 = [⟨0, 136, 128⟩, ⟨160, 8, 128⟩, ⟨192, 8, 128⟩, ⟨224, 8, 128⟩,
+    ⟨256, 136, 128⟩, ⟨416, 8, 128⟩, ⟨448, 8, 128⟩, ⟨480, 8, 128⟩] := by decide
+example : 1 < exB16.height ∧ 3 < exB16.width ∧ 19 < exB16.depth ∧ 1 < exB16.elemBytes ∧
+    (exB16.nhcwb16 = true → 16 % 16 = 0) ∧ fmAddr exB16 1 3 19 + 1 = 487 ∧
+    (canon exB16 (1 + 0) (3 + 0) (19 + 16) : Int) - (fmAddr exB16 1 3 19 : Int) = 128 := by decide
+
+/-! ## the bounds check at element granularity -/
+
+/-- If `checkAccessBounds` reports nothing for a feature-map access then the region is published and every
+    byte of every addressed element lies below its extent (no alignment side condition: only the address
+    part of `fmPieces_covers` is used). -/
+theorem checkBounds_sound_elements (e : Env) (idx region : Nat) (write : Bool) (what : String) (fm : FM)
+    (y0 x0 c0 : Nat) (h : checkAccessBounds e idx ⟨region, write, what, fmPieces fm y0 x0 c0⟩ = []) :
+    ∃ ext, e.extent region = some ext ∧
+      (∀ y x c k, y < fm.height → x < fm.width → c < fm.depth → k < fm.elemBytes → fmAddr fm y x c + k < ext) ∧
+      ¬ (write = true ∧ region = e.constRegion) := by
+  obtain ⟨ext, hext, hall, hw⟩ := checkAccessBounds_sound e idx _ h
+  refine ⟨ext, hext, ?_, hw⟩
+  intro y x c k hy hx hc hk
+  obtain ⟨p, hp, hcov, _⟩ := Footprint.fmPieces_covers fm y0 x0 c0 y x c k hy hx hc hk
+  exact hall p hp _ hcov.1 hcov.2
+
+example : checkAccessBounds { extents := [(1, 1043)], shramBytes := 16384, lutBase := 14336 } 0
+    ⟨1, false, "IFM", fmPieces exNhwc 5 0 0⟩ = [] := by decide
+example : checkAccessBounds { extents := [(1, 1042)], shramBytes := 16384, lutBase := 14336 } 0
+    ⟨1, false, "IFM", fmPieces exNhwc 5 0 0⟩ ≠ [] := by decide
+
+/-- Whole stream: if `checkBounds` reports nothing then every access of every executed operation is inside
+    its published region, and nothing writes the constants region. -/
+theorem checkBounds_sound (e : Env) (ops : List DecOp) (infos : List Info) (h : checkBounds e ops infos = []) :
+    ∀ oi ∈ ops.zip infos, ∀ a ∈ accessesOf oi.1 oi.2 e,
+      ∃ ext, e.extent a.region = some ext ∧ (∀ p ∈ a.pieces, ∀ b, p.addr ≤ b → b < p.addr + p.len → b < ext) ∧
+        ¬ (a.write = true ∧ a.region = e.constRegion) := by
+  intro oi hoi a ha
+  unfold checkBounds at h
+  rw [List.flatMap_eq_nil_iff] at h
+  rw [← zipIdx_map_fst (ops.zip infos) 0, List.mem_map] at hoi
+  obtain ⟨⟨oi', idx⟩, hmem, rfl⟩ := hoi
+  have h1 := h _ hmem
+  simp only at h1
+  rw [List.flatMap_eq_nil_iff] at h1
+  exact checkAccessBounds_sound e idx a (h1 a ha)
+
+/-- … in particular every byte of every IFM and OFM element of every block operation -/
+theorem checkBounds_sound_block_elements (e : Env) (ops : List DecOp) (infos : List Info)
+    (h : checkBounds e ops infos = []) (b : BlockOp) (i : OpInfo) (hmem : (DecOp.block b, Info.block i) ∈ ops.zip infos) :
+    (∃ ext, e.extent b.ifm.region = some ext ∧ ∀ y x c k, y < b.ifm.height → x < b.ifm.width → c < b.ifm.depth →
+        k < b.ifm.elemBytes → fmAddr b.ifm y x c + k < ext) ∧
+    (∃ ext, e.extent b.ofm.region = some ext ∧ b.ofm.region ≠ e.constRegion ∧
+        ∀ y x c k, y < b.ofm.height → x < b.ofm.width → c < b.ofm.depth →
+        k < b.ofm.elemBytes → fmAddr b.ofm y x c + k < ext) := by
+  have hall := checkBounds_sound e ops infos h _ hmem
+  have hI : (⟨b.ifm.region, false, "IFM", fmPieces b.ifm i.ifm.y0 i.ifm.x0 i.ifm.c0⟩ : Access) ∈
+      accessesOf (DecOp.block b) (Info.block i) e := by
+    show _ ∈ blockAccesses b i e
+    unfold blockAccesses
+    simp only [List.mem_append, List.mem_singleton, true_or]
+  have hO : (⟨b.ofm.region, true, "OFM", fmPieces b.ofm i.ofm.y0 i.ofm.x0 i.ofm.c0⟩ : Access) ∈
+      accessesOf (DecOp.block b) (Info.block i) e := by
+    show _ ∈ blockAccesses b i e
+    unfold blockAccesses
+    simp only [List.mem_append, List.mem_singleton, or_true]
+  constructor
+  · obtain ⟨ext, hext, hp, _⟩ := hall _ hI
+    refine ⟨ext, hext, ?_⟩
+    intro y x c k hy hx hc hk
+    obtain ⟨p, hpm, hcov, _⟩ := Footprint.fmPieces_covers b.ifm i.ifm.y0 i.ifm.x0 i.ifm.c0 y x c k hy hx hc hk
+    exact hp p hpm _ hcov.1 hcov.2
+  · obtain ⟨ext, hext, hp, hw⟩ := hall _ hO
+    refine ⟨ext, hext, fun hc => hw ⟨rfl, hc⟩, ?_⟩
+    intro y x c k hy hx hc hk
+    obtain ⟨p, hpm, hcov, _⟩ := Footprint.fmPieces_covers b.ofm i.ofm.y0 i.ofm.x0 i.ofm.c0 y x c k hy hx hc hk
+    exact hp p hpm _ hcov.1 hcov.2
+
+def exBlock : BlockOp := { (default : BlockOp) with ifm := exNhwc, ofm := { exB16 with region := 2 } }
+def exInfo : OpInfo :=
+  { ifm := ⟨7, 5, 0, 0, 0⟩, ifm2 := default, ofm := ⟨8, 0, 0, 16, 0⟩, wsrc := [], ssrc := [], lutsrc := -1, lutLen := 0 }
+example : checkBounds { extents := [(0, 64), (1, 1043), (2, 488)], shramBytes := 16384, lutBase := 14336 }
+    [.block exBlock] [.block exInfo] = [] := by decide
+example : checkBounds { extents := [(0, 64), (1, 1043), (2, 487)], shramBytes := 16384, lutBase := 14336 }
+    [.block exBlock] [.block exInfo] ≠ [] := by decide
 
 end VelaVerif.Props.C02
